@@ -201,6 +201,25 @@ func l3ScanBracket(fn bool, s []rune) l3Bracket {
 	}
 }
 
+func (b *l3Bracket) hasClass() bool {
+	for _, it := range b.items {
+		if it.kind == 2 {
+			return true
+		}
+	}
+	return false
+}
+
+// hasCaseClass: a class whose ASCII set is not closed under case folding.
+func (b *l3Bracket) hasCaseClass() bool {
+	for _, it := range b.items {
+		if it.kind == 2 && (it.name == "upper" || it.name == "lower") {
+			return true
+		}
+	}
+	return false
+}
+
 func (b *l3Bracket) hasSlashMember() bool {
 	if b.neg {
 		return true
@@ -241,14 +260,14 @@ func (b *l3Bracket) verdict() string {
 // parenthesis outside a bracket expression nests; a bracket expression is skipped as a unit).
 // status: 0 no closing parenthesis, 1 found, 2 a malformed bracket expression was met.
 func l3ScanGroup(fn bool, s []rune) (alts [][]rune, rest []rune, status int, unclosedBracket bool) {
-	alts, rest, status, unclosedBracket, _ = l3ScanGroupX(fn, s)
+	alts, rest, status, unclosedBracket, _, _ = l3ScanGroupX(fn, s)
 	return
 }
 
 // l3ScanGroupX also reports whether a closed bracket expression with a slash inside was passed
 // (filename mode: the reference reads its `[` as an ordinary character, pattern.go emits the whole
 // bracket literally).
-func l3ScanGroupX(fn bool, s []rune) (alts [][]rune, rest []rune, status int, unclosedBracket, slashBracket bool) {
+func l3ScanGroupX(fn bool, s []rune) (alts [][]rune, rest []rune, status int, unclosedBracket, slashBracket, dashQuirk bool) {
 	depth := 0
 	var cur []rune
 	r := s
@@ -257,13 +276,16 @@ func l3ScanGroupX(fn bool, s []rune) (alts [][]rune, rest []rune, status int, un
 		switch {
 		case c == '\\':
 			if len(r) < 2 {
-				return nil, nil, 0, unclosedBracket, slashBracket
+				return nil, nil, 0, unclosedBracket, slashBracket, dashQuirk
 			}
 			cur = append(cur, c, r[1])
 			r = r[2:]
 			continue
 		case c == '[':
 			b := l3ScanBracket(fn, r[1:])
+			if b.dashQuirk {
+				dashQuirk = true
+			}
 			switch b.verdict() {
 			case "ok":
 				n := len(r) - len(b.rest)
@@ -271,7 +293,7 @@ func l3ScanGroupX(fn bool, s []rune) (alts [][]rune, rest []rune, status int, un
 				r = b.rest
 				continue
 			case "malformed":
-				return nil, nil, 2, unclosedBracket, slashBracket
+				return nil, nil, 2, unclosedBracket, slashBracket, dashQuirk
 			}
 			if !b.closed {
 				unclosedBracket = true
@@ -283,7 +305,7 @@ func l3ScanGroupX(fn bool, s []rune) (alts [][]rune, rest []rune, status int, un
 		case c == ')':
 			if depth == 0 {
 				alts = append(alts, cur)
-				return alts, r[1:], 1, unclosedBracket, slashBracket
+				return alts, r[1:], 1, unclosedBracket, slashBracket, dashQuirk
 			}
 			depth--
 		case c == '|' && depth == 0:
@@ -295,7 +317,7 @@ func l3ScanGroupX(fn bool, s []rune) (alts [][]rune, rest []rune, status int, un
 		cur = append(cur, c)
 		r = r[1:]
 	}
-	return nil, nil, 0, unclosedBracket, slashBracket
+	return nil, nil, 0, unclosedBracket, slashBracket, dashQuirk
 }
 
 // l3Info collects what the classifier found in a pattern.
@@ -312,6 +334,7 @@ type l3Info struct {
 	slashMember       bool // filename mode: bracket whose set contains '/'
 	slashBracket      bool // filename mode: slash inside a bracket expression
 	starSwallow       bool // filename+ext mode: "**(": the look-ahead for ** eats the operator
+	nocaseClass       bool // NoGlobCase: [[:upper:]] / [[:lower:]] are folded by (?i), not by bash
 
 	// regions where bash itself is inconsistent
 	unclosedBracket        bool
@@ -364,8 +387,12 @@ func (in *l3Info) walk(mode int, inGroup bool, pos int, prev rune, s []rune, dep
 				if depth > 0 {
 					in.negNested = true
 				}
+				ok = false
 			}
-			alts, rest2, status, ub, sb := l3ScanGroupX(fn, rest[1:])
+			alts, rest2, status, ub, sb, dq := l3ScanGroupX(fn, rest[1:])
+			if dq {
+				in.dashQuirk = true
+			}
 			if ub {
 				in.unclosedBracketInGroup = true
 			}
@@ -374,7 +401,7 @@ func (in *l3Info) walk(mode int, inGroup bool, pos int, prev rune, s []rune, dep
 			}
 			if status == 2 {
 				in.malformed = true
-				return ok
+				return false
 			}
 			if status == 0 {
 				in.unterminatedGroup = true
@@ -465,6 +492,12 @@ func (in *l3Info) walk(mode int, inGroup bool, pos int, prev rune, s []rune, dep
 				if fn && b.hasSlashMember() {
 					in.slashMember = true
 					ok = false
+				}
+				if mode&l3NoCase != 0 && b.hasClass() {
+					ok = false
+					if b.hasCaseClass() {
+						in.nocaseClass = true
+					}
 				}
 				if dotSens && pos != l3Mid {
 					in.leadingDot = true
